@@ -303,7 +303,7 @@ pub fn long_section_case(r: &mut Rng, k: usize) -> String {
         }
     }
     body.push_str("\n tail ");
-    let (open, close) = match (k / 3) % 9 {
+    let (open, close) = match (k / 3) % 10 {
         0 => ("title \"&a ", "\";"),
         1 => ("x = \"", "\";"),
         2 => ("%a(1,%b(2,%c(", ")));"),
@@ -312,6 +312,7 @@ pub fn long_section_case(r: &mut Rng, k: usize) -> String {
         5 => ("/* ", " */ x;"),
         6 => ("datalines;\n", "\n;\nrun;"),
         7 => ("title \"pre %a(%b(", "))\";"),
+        8 => ("%outer(dsn=a, where=\"x = %inner(lib ", ")\");"),
         _ => ("%macro m(p=", "); %mend;"),
     };
     match r.below(4) {
